@@ -162,7 +162,29 @@ pub struct Shape {
 }
 
 fn cov_bytes(f: u8, a: u16, b: u16) -> Vec<u8> {
-    let ops = match f % 8 {
+    // the standard signature covenants, genuine and as near-misses: same length and prefix, another tail (two
+    // maximal hashes weigh 131 200 instead of the template's 166), or one byte changed anywhere
+    if f % 12 >= 8 {
+        let legacy = f % 12 == 10;
+        let c = if legacy { CovSpec::SigLegacy(a as usize) } else { CovSpec::SigNew(a as usize) };
+        let mut v = c.bytes();
+        match f % 12 {
+            8 => {}
+            9 | 10 => {
+                let tail = refvm::encode(&[ROp::Hash(b), ROp::Hash(65535 - (a % 7))]).unwrap();
+                let n = v.len();
+                if tail.len() <= n && b % 3 != 0 {
+                    v[n - tail.len()..].copy_from_slice(&tail);
+                }
+            }
+            _ => {
+                let n = v.len();
+                v[(a as usize * 31 + b as usize) % n] = (b >> 8) as u8 ^ (b as u8);
+            }
+        }
+        return v;
+    }
+    let ops = match f % 12 {
         6 => vec![ROp::Loop(a, 65535), ROp::Hash(b), ROp::Noop], // body overruns the end of the program
         7 => vec![ROp::Noop, ROp::Loop(3, 2), ROp::Loop(a, 50), ROp::Hash(b), ROp::Add], // inner body overruns the enclosing body
         5 => {
@@ -330,7 +352,7 @@ pub fn run(ctx: &Ctx) -> (Outcome, String, Option<bool>) {
         },
     );
     out.absorb(o);
-    let rule = "Two generators. (1) Histories as for C01 on four network classes with fee classes min / min+1 / min+tip and the fee-1 mutation, with and without proposer actions. (2) Single transactions of every shape built as faucets on a custom network: 0-255 outputs, data 0-4 KiB, 0-4 covenants with weights from 1 to saturation (nested 65535-iteration loops) including undecodable ones, 0-3 signatures, multipliers {0,1,2,100,65535,65536,10^6,2^40,2^64,2^100}, fee at min-1 / min / min+1 / min+tip where min is taken at the fixed point of weight->fee->encoding. Oracle: min = floor(sat(weight x multiplier)/65536) with weight = stdcode length + sum of RefVM covenant weights + 1000 x outputs - 1000 x inputs floored at 0; accepted => fee >= min; fee >= min is never rejected for insufficient fees; fee pool grows by exactly min and tips by fee - min (view hook); sealing with an action creates one coin at proposer_reward(height) worth (fee pool of the same block sealed without action) >> 16 plus all tips, the header's fee pool is lower by exactly that first term, tips are zero afterwards; no action => no reward coin (what happens to uncollected tips is not specified by the property). Non-trivial = fee within +-1 of a non-zero minimum, or a block sealed with an action and non-zero tips.".to_string();
+    let rule = "Two generators. (1) Histories as for C01 on four network classes with fee classes min / min+1 / min+tip and the fee-1 mutation, with and without proposer actions. (2) Single transactions of every shape built as faucets on a custom network: 0-255 outputs, data 0-4 KiB, 0-4 covenants with weights from 1 to saturation (nested 65535-iteration loops) including undecodable ones and the standard signature covenants, genuine and as near-misses (same length and prefix with another tail, or one byte changed), 0-3 signatures, multipliers {0,1,2,100,65535,65536,10^6,2^40,2^64,2^100}, fee at min-1 / min / min+1 / min+tip where min is taken at the fixed point of weight->fee->encoding. Oracle: min = floor(sat(weight x multiplier)/65536) with weight = stdcode length + sum of RefVM covenant weights + 1000 x outputs - 1000 x inputs floored at 0; accepted => fee >= min; fee >= min is never rejected for insufficient fees; fee pool grows by exactly min and tips by fee - min (view hook); sealing with an action creates one coin at proposer_reward(height) worth (fee pool of the same block sealed without action) >> 16 plus all tips, the header's fee pool is lower by exactly that first term, tips are zero afterwards; no action => no reward coin (what happens to uncollected tips is not specified by the property). Non-trivial = fee within +-1 of a non-zero minimum, or a block sealed with an action and non-zero tips.".to_string();
     (out, rule, None)
 }
 
